@@ -165,7 +165,7 @@ class PhaseMonitor:
         out_kw = kwargs.get("out")
         if out_kw is not None:
             # out= / in-place operators: judged when the single target is a Phase (the returned object must be that target)
-            if not (isinstance(out_kw, tuple) and len(out_kw) == 1 and isinstance(out_kw[0], Phase)) or name in ("floor_divide", "remainder", "divmod"):
+            if not (isinstance(out_kw, tuple) and len(out_kw) == 1 and isinstance(out_kw[0], Phase)) or name in ("floor_divide", "divmod"):
                 return
             if exc is None and res is not NotImplemented and res is not out_kw[0]:
                 ctx.violation("phase_" + name, "out= target was not returned", None, {"what": "out_identity", "op": name})
@@ -443,7 +443,17 @@ def wl_inplace(ctx, idx, rng):
     imaginary = rng.random() < 0.3
     p = make_phase(rng, dec, fk, shape, imaginary)
     q = make_phase(rng, gen.pick(rng, [0, 1, 3]), "uniform", shape, imaginary)
-    form = ["imul2", "imul_j", "idiv_j", "iadd", "isub", "abs_out_self", "neg_out_other", "mul_out_other", "idiv3"][idx % 9]
+    form = ["imul2", "imul_j", "idiv_j", "iadd", "isub", "abs_out_self", "neg_out_other", "mul_out_other", "idiv3",
+            "imod_q", "imod_phase", "mod_out_divisor"][idx % 12]
+    if form in ("imod_q", "imod_phase", "mod_out_divisor"):
+        # remainders are defined for real phases; the divisor is a few cycles so that the quotient is exact in a double
+        imaginary = False
+        p = make_phase(rng, dec if dec in (0, 1, 3, 6) else 3, fk, shape, False)
+        q = make_phase(rng, gen.pick(rng, [0, 1]), "uniform", shape, False)
+        with probes.quiet():
+            q = abs(q) + Phase(2.0, 0.25)
+            vals0, im0 = exact.phase_fraction(p)
+            qv, _ = exact.phase_fraction(q)
     with probes.quiet():
         vals0, im0 = exact.phase_fraction(p)
         qv, _ = exact.phase_fraction(q)
@@ -463,6 +473,19 @@ def wl_inplace(ctx, idx, rng):
         if form == "idiv3":
             p /= 3.0
             return p, [v / 3 for v in vals0], im0
+        if form in ("imod_q", "imod_phase", "mod_out_divisor"):
+            want_r = [a - math.floor(a / b) * b for a, b in zip(vals0, qv)]
+            if form == "imod_phase":
+                p %= q
+                return p, want_r, False
+            if form == "imod_q":
+                with probes.quiet():
+                    qq = u.Quantity(q.cycle)
+                    qv2 = [F(float(v)) for v in np.atleast_1d(qq.to_value(u.cycle)).ravel()]
+                p %= qq
+                return p, [a - math.floor(a / b) * b for a, b in zip(vals0, qv2)], False
+            r = np.remainder(p, q, out=q)      # the divisor is the target
+            return r, want_r, False
         if form == "iadd":
             p += q
             return p, [a + b for a, b in zip(vals0, qv)], im0
